@@ -5,7 +5,8 @@
    quantified and constrained only by their defining equations (hypotheses named after the call that produces them).
    Carrier: Q (an ordered field; nothing specific to Q is used except field/order reasoning). *)
 From Coq Require Import ZArith QArith Qabs List Arith Bool Lia Lqa.
-From BCT Require Import Base.Mat Base.SumQ Model.Walks Model.Linear Proofs.Walks Proofs.Linear Proofs.LinearSpectral.
+From BCT Require Import Base.Mat Base.SumQ Model.Walks Model.Linear Proofs.Walks Proofs.WalksBound Proofs.Linear Proofs.LinearSpectral
+  Proofs.LinearFull Proofs.LinearMarkov Proofs.LinearDim Proofs.LinearExist Proofs.LinearSelect Proofs.LinearRun.
 Import ListNotations.
 
 (* ------------------------------------------------------------------ findwalks (FULL) *)
@@ -31,6 +32,23 @@ Qed.
 Theorem C18_findwalks_rejects : forall n A, findwalks n A = None <-> (n < 2)%nat.
 Proof. exact findwalks_rejects. Qed.
 
+(* The model counts in Z; the code stores the counts in a float64 array.  A non-negative integer below 2^53 is a binary64
+   number and a sum of non-negative integers whose total is below 2^53 is formed without rounding, so the run of the code
+   coincides with the model as long as twalk < 2^53 (`fw_exact`, decidable on the output).  This theorem gives the sizes:
+   every entry of Wq[:,:,q] lies in [0, D^q] for D = the largest in-degree, twalk <= n^2 (1 + D + ... + D^(n-1)), every
+   entry and every wlq is at most twalk; hence fw_exact bounds all of the output, and the a-priori bound implies fw_exact.
+   Beyond 2^53 (first for K_15: twalk, K_16: entries of length 15) the code returns ROUNDED counts: C18_findwalks_power is
+   then a statement about the model only (recorded as known finding findwalks:exact53). *)
+Theorem C18_findwalks_exact_range : forall n A Wq, findwalks n A = Some Wq ->
+  let D := maxindeg n A in
+  (forall q i j, (q < n)%nat -> (i < n)%nat -> (j < n)%nat -> (0 <= Wq q i j <= D ^ Z.of_nat q)%Z) /\
+  (0 <= twalk n Wq <= fw_bound n D)%Z /\
+  (fw_exact n Wq = true ->
+     (forall q i j, (q < n)%nat -> (i < n)%nat -> (j < n)%nat -> (0 <= Wq q i j < two53)%Z) /\
+     (forall q, (q < n)%nat -> (0 <= wlq n Wq q < two53)%Z) /\ (0 <= twalk n Wq < two53)%Z) /\
+  ((fw_bound n D < two53)%Z -> fw_exact n Wq = true).
+Proof. exact findwalks_exact_range. Qed.
+
 Open Scope Q_scope.
 
 (* ------------------------------------------------------------------ mean first passage time *)
@@ -55,7 +73,76 @@ Theorem C18_mfpt_equation : forall n (P : mat Q) (w : vec Q) (Z : mat Q),
   (forall j, (j < n)%nat -> 1 + sumQ (fun k => if Nat.eqb k j then 0 else P j k * M k j) n == 1 / w j).
 Proof. intros n P w Z HP Hw Hw1 HZ Hnz. exact (mfpt_equation n P w Z HP Hw Hw1 HZ Hnz). Qed.
 
+(* WHERE "CONNECTED" ENTERS.  For a non-negative row-stochastic irreducible P (no spectral theory, no Perron-Frobenius
+   assumed): a stationary vector has one sign; the one with sum 1 is positive (so the division by W is safe: the
+   hypothesis `w_j <> 0` above is a consequence) and unique; I - P + 1w is injective. *)
+Theorem C18_stationary_positive_unique : forall n (P : mat Q),
+  (forall i j, (i < n)%nat -> (j < n)%nat -> 0 <= P i j) ->
+  (forall i, (i < n)%nat -> sumQ (P i) n == 1) ->
+  irreducible n P ->
+  (forall w, stationary n P w ->
+     (forall j, (j < n)%nat -> w j == 0) \/ (forall j, (j < n)%nat -> 0 < w j) \/ (forall j, (j < n)%nat -> w j < 0)) /\
+  (forall w, stationary n P w -> sumQ w n == 1 -> forall j, (j < n)%nat -> 0 < w j) /\
+  (forall w w', stationary n P w -> sumQ w n == 1 -> stationary n P w' -> sumQ w' n == 1 ->
+     forall j, (j < n)%nat -> w j == w' j) /\
+  (forall w, stationary n P w -> sumQ w n == 1 ->
+     forall x, (forall i, (i < n)%nat -> mvecQ n (fundA P w) x i == 0) -> forall i, (i < n)%nat -> x i == 0).
+Proof.
+  intros n P H0 H1 Hi. split; [|split; [|split]].
+  - exact (stationary_sign n P H0 H1 Hi).
+  - exact (stationary_positive n P H0 H1 Hi).
+  - exact (stationary_unique n P H0 H1 Hi).
+  - exact (fundA_injective n P H0 H1 Hi).
+Qed.
+
+(* FULL statement for mean_first_passage_time (replaces the conditional reading of C18_mfpt_equation): for EVERY
+   non-negative strongly connected network on n >= 2 nodes, with P = D^-1 A:
+     (a) P is row-stochastic;
+     (b) the objects the code asks LAPACK for EXIST: a stationary w with sum 1 and a Z with (I - P + 1w) Z = I;
+     (c) for ANY w, Z meeting those defining equations (whatever routine produced them): w > 0; M = (Z_jj - Z_ij)/w_j
+         satisfies M_ij = 1 + sum_{k != j} P_ik M_kj for i != j; M_jj = 0 (the i = j instance of the right-hand side is the
+         return time 1/w_j, which the code does not return); Z is also a left inverse; and M does not depend on the choice
+         of w, Z: the returned matrix is determined by the network. *)
+Theorem C18_mfpt_connected : forall n (A : mat Q), (2 <= n)%nat ->
+  (forall i j, (i < n)%nat -> (j < n)%nat -> 0 <= A i j) ->
+  irreducible n A ->
+  let P := transP n A in
+  let defining (w : vec Q) (Z : mat Q) :=
+    stationary n P w /\ sumQ w n == 1 /\
+    (forall i j, (i < n)%nat -> (j < n)%nat -> mmulQ n (fundA P w) Z i j == delta i j) in
+  (forall i, (i < n)%nat -> sumQ (P i) n == 1) /\
+  (exists w Z, defining w Z) /\
+  (forall w Z, defining w Z ->
+     let M := mfpt w Z in
+     (forall j, (j < n)%nat -> 0 < w j) /\
+     (forall i j, (i < n)%nat -> (j < n)%nat -> i <> j ->
+        M i j == 1 + sumQ (fun k => if Nat.eqb k j then 0 else P i k * M k j) n) /\
+     (forall j, M j j == 0) /\
+     (forall j, (j < n)%nat -> 1 + sumQ (fun k => if Nat.eqb k j then 0 else P j k * M k j) n == 1 / w j) /\
+     (forall i j, (i < n)%nat -> (j < n)%nat -> mmulQ n Z (fundA P w) i j == delta i j) /\
+     (forall w' Z', defining w' Z' -> forall i j, (i < n)%nat -> (j < n)%nat -> mfpt w' Z' i j == M i j)).
+Proof.
+  intros n A Hn HA Hirr P defining.
+  assert (Hn0 : (0 < n)%nat) by lia.
+  pose proof (irreducible_rowsum_pos n A Hn HA Hirr) as Hrow.
+  split; [exact (P_stochastic n A Hrow)|]. split.
+  - exact (mfpt_inputs_exist n A Hn0 HA Hrow Hirr).
+  - intros w Z Hd. exact (mfpt_connected n A HA Hrow Hirr w Z Hd).
+Qed.
+
+(* the selection of the eigenpair (distance.py: aux, index, tolerance test), aux = |D - 1| being an input *)
+Theorem C18_mfpt_select_spec : forall (tol : Q) (aux : list Q),
+  match mfpt_select tol aux with
+  | SelOk i => is_min aux i /\ (forall k, is_min aux k -> k = i) /\ nth i aux 0 <= tol
+  | SelTolerance => exists i, is_min aux i /\ (forall k, is_min aux k -> k = i) /\ tol < nth i aux 0
+  | SelAmbiguous => exists i k, i <> k /\ is_min aux i /\ is_min aux k
+  | SelEmpty => aux = []
+  end.
+Proof. exact mfpt_select_spec. Qed.
+
 (* ------------------------------------------------------------------ diffusion efficiency *)
+(* NOTE: a definitional unfolding of ediff / gediff (the two lines of the code); it records what the model computes and
+   gives no assurance beyond the correspondence run.  1/0 is 0 in Q and inf in the code (never reached: M_ij > 0). *)
 Theorem C18_diffusion_eff_def : forall n (M : mat Q),
   (forall i j, i <> j -> ~ M i j == 0 -> ediff M i j * M i j == 1) /\
   (forall i j, i <> j -> ediff M i j == 1 / M i j) /\
@@ -92,6 +179,70 @@ Proof. intros n A d f r' H1 H2 H3 H4 H5 H6 H7 H8. exact (pagerank_positive n A d
 
 Theorem C18_uniform_prior : forall n, (0 < n)%nat -> sumQ (uniform n) n == 1.
 Proof. exact uniform_sum. Qed.
+
+(* EXISTENCE and UNIQUENESS (so "the" solution is justified, and `solve` cannot return anything else): for 0 <= d < 1
+   and A >= 0 - empty columns allowed - the system (I - d A D^-1) r' = (1-d) f has exactly one solution.  l1 contraction
+   over Q for uniqueness; existence from injectivity by a dimension argument (Proofs/LinearDim.v), no Neumann series. *)
+Theorem C18_pagerank_exists_unique : forall n (A : mat Q) (d : Q) (f : vec Q), 0 <= d -> d < 1 ->
+  (forall i j, (i < n)%nat -> (j < n)%nat -> 0 <= A i j) ->
+  (exists r', forall i, (i < n)%nat -> mvecQ n (pr_B n A d) r' i == pr_b d f i) /\
+  (forall x y, (forall i, (i < n)%nat -> mvecQ n (pr_B n A d) x i == pr_b d f i) ->
+               (forall i, (i < n)%nat -> mvecQ n (pr_B n A d) y i == pr_b d f i) ->
+               forall i, (i < n)%nat -> x i == y i).
+Proof. exact pagerank_exists_unique. Qed.
+
+(* what the code returns for EVERY non-negative A, dangling nodes (empty columns, `deg[deg == 0] = 1`) included, and for
+   every non-negative prior: r' >= 0, 1-d <= sum r' <= 1, r = r'/sum r' sums to one, r >= 0 and r_i > 0 where f_i > 0,
+   r = d (A D^-1 r + (mass of r on the empty columns) f) + (1-d) f; with no empty column: sum r' = 1 and the property's
+   equation. *)
+Theorem C18_pagerank_any : forall n (A : mat Q) (d : Q) (f r' : vec Q),
+  (forall i, (i < n)%nat -> mvecQ n (pr_B n A d) r' i == pr_b d f i) ->
+  sumQ f n == 1 -> 0 <= d -> d < 1 ->
+  (forall i j, (i < n)%nat -> (j < n)%nat -> 0 <= A i j) ->
+  (forall i, (i < n)%nat -> 0 <= f i) ->
+  let r := pr_norm n r' in
+  (forall i, (i < n)%nat -> 0 <= r' i) /\
+  (1 - d <= sumQ r' n /\ sumQ r' n <= 1) /\
+  sumQ r n == 1 /\
+  (forall i, (i < n)%nat -> 0 <= r i) /\
+  (forall i, (i < n)%nat -> 0 < f i -> 0 < r i) /\
+  (forall i, (i < n)%nat -> r i == d * (mvecQ n (pr_M n A) r i + dangling n A r * f i) + (1 - d) * f i) /\
+  ((forall j, (j < n)%nat -> ~ colsumQ n A j == 0) ->
+     sumQ r' n == 1 /\ forall i, (i < n)%nat -> r i == d * mvecQ n (pr_M n A) r i + (1 - d) * f i).
+Proof. intros n A d f r' H1 H2 H3 H4 H5 H6. exact (pagerank_any n A d f r' H1 H2 H3 H4 H5 H6). Qed.
+
+(* the branch `norm_falff = falff / np.sum(falff)`: sums to one, keeps the signs *)
+Theorem C18_prior_normalised : forall n (g : vec Q), ~ sumQ g n == 0 ->
+  sumQ (pr_prior n (Some g)) n == 1 /\
+  ((forall i, (i < n)%nat -> 0 <= g i) ->
+   forall i, (i < n)%nat -> 0 <= pr_prior n (Some g) i /\ (0 < g i -> 0 < pr_prior n (Some g) i)).
+Proof. intros n g H. split; [exact (prior_norm n g H)|intros Hg; exact (prior_norm_sign n g Hg H)]. Qed.
+
+(* ------------------------------------------------------------------ the executable second oracle *)
+(* The extracted model does not imitate LAPACK: it obtains r' / w / Z by exact elimination (gauss_solve, unverified) and
+   re-checks them against the defining equations (flag hyp).  These two theorems say what a passed check means: the
+   printed numbers are the ones the defining equations determine - what ANY routine solving those equations returns. *)
+Theorem C18_run_pagerank_sound : forall (A : list (list Q)) (d : Q) (falff : option (list Q)) eqn r s dg,
+  let n := length A in
+  let f := pr_prior n (match falff with None => None | Some g => Some (qv g) end) in
+  run_pagerank_c A d falff = Some (true, eqn, r, s, dg) ->
+  0 <= d -> d < 1 -> (forall i j, (i < n)%nat -> (j < n)%nat -> 0 <= qm A i j) ->
+  forall r', (forall i, (i < n)%nat -> mvecQ n (pr_B n (qm A) d) r' i == pr_b d f i) ->
+  forall i, (i < n)%nat -> nth i r 0 == pr_norm n r' i.
+Proof. exact run_pagerank_c_sound. Qed.
+
+Theorem C18_run_mfpt_sound : forall (A : list (list Q)) eqn M E g,
+  let n := length A in
+  let P := transP n (qm A) in
+  run_mfpt_c A = Some (true, eqn, M, E, g) ->
+  (2 <= n)%nat -> (forall i j, (i < n)%nat -> (j < n)%nat -> 0 <= qm A i j) -> irreducible n (qm A) ->
+  forall (w : vec Q) (Z : mat Q),
+    stationary n P w -> sumQ w n == 1 ->
+    (forall i j, (i < n)%nat -> (j < n)%nat -> mmulQ n (fundA P w) Z i j == delta i j) ->
+  (forall i j, (i < n)%nat -> (j < n)%nat ->
+     nth j (nth i M []) 0 == mfpt w Z i j /\ nth j (nth i E []) 0 == ediff (mfpt w Z) i j) /\
+  g == gediff n (ediff (mfpt w Z)).
+Proof. exact run_mfpt_c_sound. Qed.
 
 (* ------------------------------------------------------------------ subgraph centrality *)
 (* vals, vecs = what eigh returns (A v_k = lam_k v_k, V V^T = I).  For EVERY polynomial p:
@@ -169,8 +320,9 @@ Example C18_nonvacuous_mfpt :
   hyp = true /\ eqn = true.
 Proof. vm_compute. split; reflexivity. Qed.
 
+(* no empty column, a non-uniform prior (falff = [1; 3]): sum r' = 1, no dangling mass *)
 Example C18_nonvacuous_pagerank :
-  run_pagerank [[0; 1]; [1; 0]] (1 # 2) [1 # 2; 1 # 2] = (true, true, [1 # 2; 1 # 2]).
+  run_pagerank_c [[0; 1]; [1; 0]] (1 # 2) (Some [1; 3]) = Some (true, true, [5 # 12; 7 # 12], 1, 0).
 Proof. vm_compute. reflexivity. Qed.
 
 (* the 4-cycle with the rational orthogonal eigenbasis H/2 (eigenvalues 2, 0, 0, -2: a repeated eigenvalue) *)
@@ -198,7 +350,59 @@ Proof.
     destruct i as [|[|i]]; [| |lia]; cbn [Nat.eqb]; lra.
 Qed.
 
+(* K_4: D = 3, the a-priori bound 16 * (1+3+9+27) = 640 is below 2^53, so both indicators are true *)
+Example C18_nonvacuous_exact_range :
+  match run_findwalks_x [[0; 1; 1; 1]; [1; 0; 1; 1]; [1; 1; 0; 1]; [1; 1; 1; 0]]%Z with
+  | Some (_, tw, _, flags) => tw = 156%Z /\ flags = (true, true)
+  | None => False
+  end.
+Proof. vm_compute. split; reflexivity. Qed.
+
+(* the directed 3-cycle with a chord is strongly connected: hypotheses of C18_mfpt_connected hold; and the computing
+   model finds w, Z itself, its checks pass *)
+Example C18_nonvacuous_mfpt_connected :
+  let A : mat Q := qm [[0; 1; 0]; [0; 0; 1]; [1; 1; 0]] in
+  (forall i j, (i < 3)%nat -> (j < 3)%nat -> 0 <= A i j) /\ irreducible 3 A /\
+  match run_mfpt_c [[0; 1; 0]; [0; 0; 1]; [1; 1; 0]] with Some (hyp, eqn, _, _, _) => hyp = true /\ eqn = true | None => False end.
+Proof.
+  cbv zeta. split; [|split].
+  - intros i j Hi Hj. destruct i as [|[|[|i]]]; [| | |lia]; (destruct j as [|[|[|j]]]; [| | |lia]); vm_compute; discriminate.
+  - assert (R01 : forall i, reach 3 (qm [[0; 1; 0]; [0; 0; 1]; [1; 1; 0]]) i 0 -> reach 3 (qm [[0; 1; 0]; [0; 0; 1]; [1; 1; 0]]) i 1)
+      by (intros i R; apply (reach_step _ _ i 0%nat 1%nat R); [lia|reflexivity]).
+    assert (R12 : forall i, reach 3 (qm [[0; 1; 0]; [0; 0; 1]; [1; 1; 0]]) i 1 -> reach 3 (qm [[0; 1; 0]; [0; 0; 1]; [1; 1; 0]]) i 2)
+      by (intros i R; apply (reach_step _ _ i 1%nat 2%nat R); [lia|reflexivity]).
+    assert (R20 : forall i, reach 3 (qm [[0; 1; 0]; [0; 0; 1]; [1; 1; 0]]) i 2 -> reach 3 (qm [[0; 1; 0]; [0; 0; 1]; [1; 1; 0]]) i 0)
+      by (intros i R; apply (reach_step _ _ i 2%nat 0%nat R); [lia|reflexivity]).
+    intros i j Hi Hj. destruct i as [|[|[|i]]]; [| | |lia]; (destruct j as [|[|[|j]]]; [| | |lia]);
+      auto using reach_refl.
+  - vm_compute. split; reflexivity.
+Qed.
+
+(* a dangling node (column 1 empty): the solver's result passes the check, the redistributed equation holds, sum r' < 1,
+   a positive mass sits on the empty column *)
+Example C18_nonvacuous_pagerank_dangling :
+  match run_pagerank_c [[0; 0; 1]; [1; 0; 0]; [1; 0; 0]] (1 # 2) None with
+  | Some (hyp, eqn, r, s, dg) => hyp = true /\ eqn = true /\ r = [3 # 8; 5 # 16; 5 # 16] /\ s = 16 # 21 /\ dg = 5 # 16
+  | None => False
+  end.
+Proof. vm_compute. repeat split; reflexivity. Qed.
+
+(* selection: a single minimum within tolerance; two bit-equal minima; minimum beyond tolerance *)
+Example C18_nonvacuous_select :
+  mfpt_select (1 # 100) [2; 0; 3 # 2] = SelOk 1 /\ mfpt_select (1 # 100) [0; 2; 0] = SelAmbiguous /\
+  mfpt_select (1 # 100) [2; 1 # 2] = SelTolerance.
+Proof. vm_compute. repeat split; reflexivity. Qed.
+
 Print Assumptions C18_findwalks_power.
+Print Assumptions C18_findwalks_exact_range.
+Print Assumptions C18_stationary_positive_unique.
+Print Assumptions C18_mfpt_connected.
+Print Assumptions C18_mfpt_select_spec.
+Print Assumptions C18_pagerank_exists_unique.
+Print Assumptions C18_pagerank_any.
+Print Assumptions C18_prior_normalised.
+Print Assumptions C18_run_pagerank_sound.
+Print Assumptions C18_run_mfpt_sound.
 Print Assumptions C18_walks_enumeration.
 Print Assumptions C18_findwalks_rejects.
 Print Assumptions C18_transP_stochastic.
